@@ -14,7 +14,13 @@ import (
 	"sort"
 	"strings"
 
+	"net/http/httptest"
+
 	"github.com/renbou/grpcbridge/bridgedesc"
+	"github.com/renbou/grpcbridge/grpcadapter"
+	"github.com/renbou/grpcbridge/internal/zzverif/vfake"
+	"github.com/renbou/grpcbridge/routing"
+	"github.com/renbou/grpcbridge/webbridge"
 	vc "github.com/renbou/grpcbridge/internal/zzverif/vcommon"
 	"github.com/renbou/grpcbridge/internal/zzverif/vschema"
 	"github.com/renbou/grpcbridge/transcoding"
@@ -769,10 +775,120 @@ func poison(pkgs []string) {
 	}
 }
 
+// ---- end to end: the same requests through PatternRouter + TranscodedHTTPBridge; the observable is the message the
+// target receives and the HTTP status ----
+type e2ePool struct{ conn *vfake.Conn }
+
+func (p *e2ePool) Get(string) (grpcadapter.ClientConn, bool) { return p.conn, true }
+
+func (c *tcase) runE2E() vc.Val {
+	pool := &e2ePool{}
+	router := routing.NewPatternRouter(pool, routing.PatternRouterOpts{})
+	pattern, urlPath := "/e2e", "/e2e"
+	for _, p := range c.params {
+		pattern += "/{" + p[0] + "}"
+		urlPath += "/" + url.PathEscape(p[1])
+	}
+	in := bridgedesc.DynamicMessage(c.root)
+	desc := &bridgedesc.Target{Name: "t", TypeResolver: c.types, Services: []bridgedesc.Service{{Name: "c04.Svc", Methods: []bridgedesc.Method{{
+		RPCName: "/c04.Svc/M", Input: in, Output: in,
+		Bindings: []bridgedesc.Binding{{HTTPMethod: "POST", Pattern: pattern, RequestBodyPath: c.bodyPath}}}}}}}
+	wt, err := router.Watch("t")
+	if err != nil {
+		panic(err)
+	}
+	wt.UpdateDesc(desc)
+	q := url.Values{}
+	for _, e := range c.query {
+		q[e.k] = e.vs
+	}
+	target := urlPath
+	if len(q) > 0 {
+		target += "?" + q.Encode()
+	}
+	var body io.Reader
+	if c.bodies[0] != nil {
+		body = strings.NewReader(*c.bodies[0])
+	}
+	conn := vfake.NewConn()
+	empty, _ := proto.Marshal(dynamicpb.NewMessage(c.root))
+	conn.Script = []vfake.RespItem{{Kind: vfake.KMsg, Payload: empty, NeedReqs: 1}, {Kind: vfake.KEOF}}
+	pool.conn = conn
+	bridge := webbridge.NewTranscodedHTTPBridge(e2eRouter{router}, webbridge.TranscodedHTTPBridgeOpts{})
+	req := httptest.NewRequest("POST", target, body)
+	rec := httptest.NewRecorder()
+	var res vc.Val
+	func() {
+		defer func() {
+			if r := recover(); r != nil {
+				res = vc.L{vc.L{99}}
+			}
+		}()
+		bridge.ServeHTTP(rec, req)
+	}()
+	if res != nil {
+		return res
+	}
+	switch rec.Code {
+	case 200:
+		conn.Lock()
+		sent := conn.SentBytes
+		conn.Unlock()
+		if len(sent) != 1 {
+			return vc.L{vc.L{96, len(sent)}}
+		}
+		m := dynamicpb.NewMessage(c.root)
+		if err := proto.Unmarshal(sent[0], m); err != nil {
+			return vc.L{vc.L{95}}
+		}
+		return vc.L{vc.L{0, dumpMsg(m)}}
+	case 400:
+		return vc.L{vc.L{3}}
+	case 500:
+		return vc.L{vc.L{13}}
+	}
+	return vc.L{vc.L{rec.Code}}
+}
+
+type e2eRouter struct{ *routing.PatternRouter }
+
+func e2ePart(w *vc.Writer, r *vc.Rand) {
+	rich := richSchema("c04")
+	rroot, rtypes := rich.Build("c04")
+	n := vc.Scale(500, 15000)
+	ok := 0
+	for i := 0; i < n; i++ {
+		c := genCase(r.Fork(), rich, rroot, rtypes)
+		c.stream = false
+		c.bodies, c.trees = c.bodies[:1], c.trees[:1]
+		// path variables travel inside the URL path: values a path segment cannot carry are left out
+		usable := true
+		for _, p := range c.params {
+			if strings.ContainsAny(p[1], "\x00") {
+				usable = false
+			}
+		}
+		if !usable {
+			continue
+		}
+		res := c.runE2E()
+		good := len(res.(vc.L)[0].(vc.L)) == 2
+		if good {
+			ok++
+		}
+		w.Case(c.input(), vc.L{res, res, res}, good)
+	}
+	fmt.Printf("STAT e2e \"ok=%d\"\n", ok)
+}
+
 func main() {
 	w := vc.NewWriter(os.Args[1])
 	defer w.Close()
 	r := vc.NewRand(vc.Seed())
+	if len(os.Args) > 2 && os.Args[2] == "e2e" {
+		e2ePart(w, r)
+		return
+	}
 	var cases []*tcase
 	rich := richSchema("c04")
 	rroot, rtypes := rich.Build("c04")
